@@ -117,6 +117,19 @@ func (e *Engine) VerifyFunc(key string) {
 		pvars = append(pvars, fx.declVars(fi.Decl.Recv)...)
 	}
 	pvars = append(pvars, fx.declVars(fi.Decl.Type.Params)...)
+	fx.preParamAlloc = st.alloc
+	// facts about allocation-initialised immutable globals (non-nil, older than anything this call allocates) are
+	// stated once at entry: later reads may happen inside quantifier bodies, where nothing can be assumed
+	{
+		var gs []*types.Var
+		for o := range e.globalsAlloc {
+			gs = append(gs, o)
+		}
+		sort.Slice(gs, func(i, j int) bool { return gs[i].Name() < gs[j].Name() })
+		for _, o := range gs {
+			fx.loadGlobal(st, o)
+		}
+	}
 	for _, v := range pvars {
 		if v == nil {
 			continue
@@ -232,8 +245,10 @@ func (e *Engine) VerifyFunc(key string) {
 			}
 		}
 		retTag := fmt.Sprintf("ret%d", ri+1)
-		if c := fx.assert(r.st, "vacuity", retTag, ts.False(), fi.Decl, nil, "canary: return at "+e.posStr(r.pos)+" is reachable (must be refutable)"); c != nil {
-			c.Canary = true
+		if !r.inPeel {
+			if c := fx.assert(r.st, "vacuity", retTag, ts.False(), fi.Decl, nil, "canary: return at "+e.posStr(r.pos)+" is reachable (must be refutable)"); c != nil {
+				c.Canary = true
+			}
 		}
 		// escaping values and objects written must satisfy their invariants
 		fx.exitExempt = nil
